@@ -488,6 +488,37 @@ func runDispatch(c *Ctx, r *Reporter) {
 		return
 	}
 	opSym := operatorSymbols(pkg)
+	symByVal := map[string]string{}
+	for k, sym := range opSym {
+		symByVal[k.Val().ExactString()] = sym
+	}
+	// opsCompared: the operator symbols an SSA function and its helpers compare an Operator-typed value with
+	anchoredOps := map[string]bool{"evalBinaryNumExpr": true, "evalBinaryStringExpr": true, "evalBinaryBoolExpr": true, "evalBinaryArrayExpr": true, "canShortCircuit": true, "evalUnaryExpr": true,
+		"compileNumBinaryExpression": true, "compileStringBinaryExpression": true, "compileUnaryExpression": true}
+	for k := range dispatcherNames {
+		anchoredOps[k] = true
+	}
+	opsCompared := func(fd *FuncDecl) map[string]bool {
+		out := map[string]bool{}
+		for _, fn := range regionFns(p.SSAFunc(fd.Obj), 2, anchoredOps) {
+			for _, b := range fn.Blocks {
+				for _, ins := range b.Instrs {
+					bo, ok := ins.(*ssa.BinOp)
+					if !ok || (bo.Op != token.EQL && bo.Op != token.NEQ) {
+						continue
+					}
+					for _, side := range []ssa.Value{bo.X, bo.Y} {
+						if k, ok := side.(*ssa.Const); ok && k.Value != nil && isNamed(k.Type(), pkg.PkgPath, "Operator") {
+							if sym := symByVal[k.Value.ExactString()]; sym != "" {
+								out[sym] = true
+							}
+						}
+					}
+				}
+			}
+		}
+		return out
+	}
 	symsOfCases := func(pk *packages.Package, fname string) (map[string]bool, *ast.SwitchStmt, *FuncDecl) {
 		fd := FindFunc(pk, fname)
 		if fd == nil {
@@ -498,7 +529,9 @@ func runDispatch(c *Ctx, r *Reporter) {
 			return s.Tag != nil && isNamed(pk.TypesInfo.TypeOf(s.Tag), pkg.PkgPath, "Operator")
 		})
 		if len(sws) == 0 {
-			return map[string]bool{}, nil, fd
+			// an if-chain, or a switch in a helper: every operator constant that the function (or a helper it
+			// calls) compares an Operator value with
+			return opsCompared(fd), nil, fd
 		}
 		cases, _ := caseConsts(pk.TypesInfo, sws[0].Body)
 		out := map[string]bool{}
@@ -518,15 +551,7 @@ func runDispatch(c *Ctx, r *Reporter) {
 	}
 	// == and != handled for all types in evalBinaryExpr
 	if fd := FindFunc(evalPkg, "(*Evaluator).evalBinaryExpr"); fd != nil {
-		got := map[string]bool{}
-		ast.Inspect(fd.Decl.Body, func(n ast.Node) bool {
-			if be, ok := n.(*ast.BinaryExpr); ok && be.Op == token.EQL {
-				if k := constOf(evalPkg.TypesInfo, be.Y); k != nil && opSym[k] != "" {
-					got[opSym[k]] = true
-				}
-			}
-			return true
-		})
+		got := opsCompared(fd)
 		r.Check(sameSet(got, spec["all"]), fd.QName()+"#equality", p.Rel(fd.Decl.Pos()), "== and != are handled for all operand types", fmt.Sprintf("evalBinaryExpr handles {%s} generically, the specification says {%s}", setString(got), setString(spec["all"])))
 	} else {
 		r.Undecided("evalBinaryExpr not found")
@@ -534,21 +559,25 @@ func runDispatch(c *Ctx, r *Reporter) {
 	// unary
 	evalUnary := map[string]bool{}
 	if fd := FindFunc(evalPkg, "(*Evaluator).evalUnaryExpr"); fd != nil {
-		ast.Inspect(fd.Decl.Body, func(n ast.Node) bool {
-			if be, ok := n.(*ast.BinaryExpr); ok && be.Op == token.EQL {
-				if k := constOf(evalPkg.TypesInfo, be.Y); k != nil && opSym[k] != "" {
-					evalUnary[opSym[k]] = true
-				}
-			}
-			return true
-		})
+		for sym := range opsCompared(fd) {
+			evalUnary[sym] = true
+		}
 		r.Check(sameSet(evalUnary, map[string]bool{"-": true, "!": true}), fd.QName()+"#operators", p.Rel(fd.Decl.Pos()), "implements the unary operators - and !", "evalUnaryExpr must implement exactly - and !, found {"+setString(evalUnary)+"}")
 	}
 	// parser: validateBinaryType
 	if fd := FindFunc(pkg, "(*parser).validateBinaryType"); fd != nil {
-		sws := findSwitches(fd.Decl.Body, func(s *ast.SwitchStmt) bool {
-			return s.Tag != nil && isNamed(pkg.TypesInfo.TypeOf(s.Tag), pkg.PkgPath, "Operator")
-		})
+		var sws []*ast.SwitchStmt
+		for _, fn := range regionFns(p.SSAFunc(fd.Obj), 2, dispatcherNames) {
+			if obj, ok := fn.Object().(*types.Func); ok {
+				for _, d2 := range Funcs(pkg) {
+					if d2.Obj == obj {
+						sws = append(sws, findSwitches(d2.Decl.Body, func(s *ast.SwitchStmt) bool {
+							return s.Tag != nil && isNamed(pkg.TypesInfo.TypeOf(s.Tag), pkg.PkgPath, "Operator")
+						})...)
+					}
+				}
+			}
+		}
 		if len(sws) == 0 {
 			r.Undecided("validateBinaryType: no switch over the operator")
 		} else {
@@ -715,24 +744,45 @@ func runEvalOrder(c *Ctx, r *Reporter) {
 			continue
 		}
 		sf := p.SSAFunc(fd.Obj)
-		// evaluation call per field
-		evalOf := map[string]*ssa.Call{}
-		for _, b := range sf.Blocks {
-			for _, ins := range b.Instrs {
-				call, ok := ins.(*ssa.Call)
-				if !ok {
-					continue
-				}
-				sc := call.Call.StaticCallee()
-				if sc == nil || !ei.reach[sc] {
-					continue
-				}
-				for _, a := range call.Call.Args {
-					if f := nodeFieldOf(a, 0); f != "" {
-						if _, dup := evalOf[f]; !dup {
-							evalOf[f] = call
+		// evaluation call per field; when the evaluations were moved into a helper, the helper that holds them all
+		// is analysed in place of the anchored function
+		collect := func(fn *ssa.Function) map[string]*ssa.Call {
+			evalOf := map[string]*ssa.Call{}
+			for _, b := range fn.Blocks {
+				for _, ins := range b.Instrs {
+					call, ok := ins.(*ssa.Call)
+					if !ok {
+						continue
+					}
+					sc := call.Call.StaticCallee()
+					if sc == nil || !ei.reach[sc] {
+						continue
+					}
+					for _, a := range call.Call.Args {
+						if f := nodeFieldOf(a, 0); f != "" {
+							if _, dup := evalOf[f]; !dup {
+								evalOf[f] = call
+							}
 						}
 					}
+				}
+			}
+			return evalOf
+		}
+		evalOf := collect(sf)
+		complete := func(m map[string]*ssa.Call) bool {
+			for _, f := range s.fields {
+				if m[f] == nil {
+					return false
+				}
+			}
+			return true
+		}
+		if !complete(evalOf) {
+			for _, h := range regionFns(sf, 2, dispatcherNames) {
+				if m := collect(h); complete(m) {
+					evalOf = m
+					break
 				}
 			}
 		}
@@ -786,6 +836,13 @@ func runEvalOrder(c *Ctx, r *Reporter) {
 		return
 	}
 	binSSA, cscSSA := p.SSAFunc(bin.Obj), p.SSAFunc(csc.Obj)
+	// the operand evaluation may live in a helper of evalBinaryExpr: analyse the function that calls canShortCircuit
+	for _, h := range regionFns(binSSA, 2, dispatcherNames) {
+		if len(callsTo(h, cscSSA)) > 0 {
+			binSSA = h
+			break
+		}
+	}
 	var cscCall *ssa.Call
 	var rightEval *ssa.Call
 	for _, b := range binSSA.Blocks {
